@@ -14,6 +14,7 @@ import (
 	"fmt"
 	"os"
 	"path/filepath"
+	"runtime/debug"
 	"sort"
 )
 
@@ -102,6 +103,8 @@ func main() {
 	}
 	o := &Out{cases: bufio.NewWriterSize(cf, 1<<20), impl: bufio.NewWriterSize(imf, 1<<20), seen: map[string]bool{}}
 	o.meta = Meta{Fragment: *frag, Seed: *seed, Dist: map[string]int{}, Findings: []Finding{}, Samples: []string{}}
+	// a result that holds an invalid pointer faults when it is serialised: make that a panic of the case, not a crash
+	debug.SetPanicOnFault(true)
 	startWatchdog(o, *outDir)
 	f(newGen(*seed), *n, o)
 	o.cases.Flush()
